@@ -28,7 +28,8 @@ inline void on_segment() {   // the point logged last was refused by the current
     calls.back().seg_starts.push_back(total_points - 1);
 }
 template<typename K> void reset() { calls.clear(); Log<K>::pts.clear(); total_points = 0; }
-int chunks = 1;
+int chunks = 1;   // the number of construction chunks the property allows: min(processors, max threads, 20)
+int env = 0;      // how the environment reports it: 0 processors = threads = chunks; 1 more threads requested than processors; 2 fewer
 }
 #define PGM_INDEX_VERIF_BEGIN(n, start, end, epsilon) verif::on_begin(n, start, end, epsilon)
 #define PGM_INDEX_VERIF_POINT(x, y) verif::on_point(x, y)
@@ -36,8 +37,8 @@ int chunks = 1;
 
 #include "pgm/pgm_index.hpp"
 
-extern "C" int omp_get_num_procs(void) noexcept { return verif::chunks; }
-extern "C" int omp_get_max_threads(void) noexcept { return verif::chunks; }
+extern "C" int omp_get_num_procs(void) noexcept { return verif::env == 2 ? verif::chunks + 5 : verif::chunks; }
+extern "C" int omp_get_max_threads(void) noexcept { return verif::env == 1 ? verif::chunks + 3 : verif::chunks; }
 
 #include "ompbind.hpp"
 
@@ -133,7 +134,7 @@ struct Checker {
     static constexpr bool is_float = std::is_floating_point_v<K>;
 
     std::string case_of(const std::string &desc, size_t eps, const char *mode) {
-        return std::string("key=") + kname() + " eps=" + std::to_string(eps) + " mode=" + mode + " chunks=" + std::to_string(verif::chunks) + " " + desc;
+        return std::string("key=") + kname() + " eps=" + std::to_string(eps) + " mode=" + mode + " chunks=" + std::to_string(verif::chunks) + " env=" + std::to_string(verif::env) + " " + desc;
     }
     static const char *kname() {
         static const char *names[] = {"u8", "i8", "u16", "i16", "u32", "i32", "u64", "i64", "f32", "f64"};
@@ -344,6 +345,7 @@ struct Checker {
         std::vector<K> data, queries;
         if (!ks::generate_family<K>(spec, eps, data, queries)) return;
         verif::chunks = int(spec.chunks);
+        verif::env = spec.chunks > 1 ? int((spec.word + spec.seam + spec.rep + spec.n) % 3) : 0;   // oversubscribed / undersubscribed environments
         run.add(cn.family);
         std::string desc = "family=" + spec.str();
         check_direct(data, eps, true, desc);
@@ -352,7 +354,7 @@ struct Checker {
             if (eps == 4) check_pgm<4, 2>(data, desc);
             if (eps == 8) check_pgm<8, 4>(data, desc);
         }
-        verif::chunks = 1;
+        verif::chunks = 1; verif::env = 0;
     }
 
     void replay(const std::map<std::string, std::string> &m) {
@@ -364,7 +366,8 @@ struct Checker {
             if (!ks::generate_family<K>(spec, eps, data, q)) { fprintf(stderr, "cannot regenerate family\n"); exit(2); }
             verif::chunks = int(spec.chunks); desc = "family=" + m.at("family");
         } else { data = mc::parse_keys<K>(m.at("data")); desc = "data=" + m.at("data"); if (m.count("chunks")) verif::chunks = atoi(m.at("chunks").c_str()); }
-        printf("replay: key=%s eps=%zu mode=%s n=%zu chunks=%d\n", kname(), eps, mode.c_str(), data.size(), verif::chunks);
+        if (m.count("env")) verif::env = atoi(m.at("env").c_str());
+        printf("replay: key=%s eps=%zu mode=%s n=%zu chunks=%d env=%d\n", kname(), eps, mode.c_str(), data.size(), verif::chunks, verif::env);
         if (mode == "seq") check_direct(data, eps, false, desc);
         else if (mode == "par") check_direct(data, eps, true, desc);
         else if constexpr (!is_float) {
@@ -512,7 +515,7 @@ int main(int argc, char **argv) {
     ev.states_counter = "arrays_segmented"; ev.transitions_counter = prop == 3 ? "point_vs_line_checks" : "maximality_checks_against_exact_oracle";
     ev.nontrivial_counter = "arrays_with_2plus_distinct_keys";
     ev.rule = std::string("every non-decreasing key sequence of length 1..") + std::to_string(N) + " over each 10-value palette, key types u32/i32/u64/i64/u8/i16" + (prop == 3 ? "/float/double" : "") +
-              ", epsilon 0..3, fed to make_segmentation; seam-window family (n=2^15(+delta), all 4096 six-letter words over {dup,+1,+2,+65536} at every chunk seam) through make_segmentation_par with the chunk count answered by the harness; block grammar (1 block x rep, 2 blocks) for epsilon in {1,8,64" + (thorough ? ",1024" : "") + "}. " +
+              ", epsilon 0..3, fed to make_segmentation; seam-window family (n=2^15(+delta), all 4096 six-letter words over {dup,+1,+2,+65536} at every chunk seam) through make_segmentation_par with the chunk count answered by the harness (processors = threads, more threads than processors, fewer threads than processors: c = min of the two); block grammar (1 block x rep, 2 blocks) for epsilon in {1,8,64" + (thorough ? ",1024" : "") + "}. " +
               (prop == 3 ? "Each point recorded by hook H1 is evaluated against the line reported for its segment (exact 128-bit rational arithmetic for integer keys, long double + stated tolerance for floating keys). "
                          : "Each builder call's partition is compared with the greedy partition computed by an exact rational stabbing-line oracle (pairwise slope bounds), plus the optimum count, the 2*epsilon spacing of segment starts, and every upper-level call inside PGMIndex builds. ") +
               "State = one segmented array; transition = one point checked; non-trivial = at least two distinct keys.";
